@@ -387,6 +387,13 @@ func panicInHarness(stack string) bool {
 			continue
 		}
 		if strings.HasPrefix(l, "gitlab.com/yawning/secp256k1-voi") {
+			// the innermost library frame is one of the expose-only hooks (zz_verif_hooks*.go,
+			// functions named Verif...): the hook reached into state the tree under test
+			// organises differently (a table that is now built on first use, a renamed field):
+			// a misfit of the instrumentation, not a verdict on the property
+			if strings.Contains(l, ".Verif") {
+				return true
+			}
 			return false
 		}
 		if strings.HasPrefix(l, "verifharness/") {
